@@ -38,7 +38,7 @@ POOLS = {
     'dimension': (['', 'about ', '~'], ['7 km', '12.5kg', '3 miles', '6 ft 2 in', '5 fluid ounces', '2 mb']),
     'number': (['', '-', 'minus ', '$', '#'], ['12', '1,234.5', 'twenty one', '3/4', '1e5', 'one hundred and five', '５５']),
     'datetime': (['', 'tomorrow morning at ', 'from ', 'between 10 and ', 'on ', 'before ', 'monday '],
-                 ['7, this afternoon', '11:30 on 1/1/2015', 'may 5 or later', '3pm to 5pm', 'next friday', 'the 3rd of May 2019 at 8', '2014 through 2018', '5/6/2020 5/7/2020', '8 pm tonight', '1/1/2016 and after', '138-2010-2015']),
+                 ['7, this afternoon', '11:30 on 1/1/2015', 'may 5 or later', '3pm to 5pm', 'next friday', 'the 3rd of May 2019 at 8', '2014 through 2018', '5/6/2020 5/7/2020', '8 pm tonight', '1/1/2016 and after', '138-2010-2015', 'May 2 and after June 5', 'june 5th and before 1/1/2015 or', '3pm and after 5pm on 1/2/2015']),
     'percentage': (['', '-', 'about '], ['12%', '12 percent', '12.5 %', 'twelve percent', '100％']),
 }
 
